@@ -1103,6 +1103,9 @@ func (c *Client) findNewPrimary(ctx context.Context, height int64, remove bool) 
 			// remove witnesses marked as bad (the client must do this before we alter the witness slice and change the indexes
 			// of witnesses). Removal is done in descending order
 			if err := c.removeWitnesses(witnessesToRemove); err != nil {
+				// every witness is either bad or has just been promoted: the client is left without
+				// witnesses, the new primary must not remain a witness of itself
+				c.witnesses = c.witnesses[:0]
 				return nil, err
 			}
 
